@@ -8,8 +8,11 @@ LIBDIR = os.path.join(BUILD, "lib")
 LIBSO_DIR = os.path.join(LIBDIR, "lib")
 COQDIR = os.path.join(VERIF, "coq")
 HARNESS = os.path.join(VERIF, "harness")
-EVID = os.path.join(VERIF, "evidence")
-REPLAYS = os.path.join(VERIF, "replays")
+# when a check is pointed at a scratch copy of the repository (IMB_REPO), its evidence and replays go
+# next to that copy's build, never into /verif/evidence (which must describe /repo itself)
+_SCRATCH = "IMB_REPO" in os.environ and os.environ["IMB_REPO"] != "/repo"
+EVID = os.path.join(BUILD, "evidence") if _SCRATCH else os.path.join(VERIF, "evidence")
+REPLAYS = os.path.join(BUILD, "replays") if _SCRATCH else os.path.join(VERIF, "replays")
 GUARD = "IMB_VERIF_HOOKS"
 NCPU = os.cpu_count() or 4
 
